@@ -55,6 +55,19 @@ func VerifHarness_C08_Merge() {
 			}
 		}
 		verifAssert(found, "C08: a saved command is found by the next search for its words")
+		// ... through the other search entry points as well (pipeline search and recovery use them)
+		for _, r := range [][]SearchResult{
+			db.SearchWithOptions("zorgblat", SearchOptions{Limit: 5}),
+			db.SearchWithPipelineOptions("zorgblat", SearchOptions{Limit: 5}),
+		} {
+			found = false
+			for _, x := range r {
+				if x.Command.Description == "zorgblat quota" {
+					found = true
+				}
+			}
+			verifAssert(found, "C08: a saved command is found by the next search for its words (legacy entry points)")
+		}
 		verifReach("searched")
 	}
 	verifReach("merged")
